@@ -12,6 +12,14 @@ multiple parent values) every trial is read through
                re-read through get_trial and trials(); suggestions of the random /
                grid / quasi-random designers on flat spaces)
 
+  cfg-compact  StudyConfig.from_proto(compact StudySpec): the spec another writer of
+               the proto produces - ONE conditional entry listing all parent values of a
+               child instead of one entry per value (parent values listed unsorted)
+  cfg-factory  the same space declared through ParameterConfig.factory(children=
+               [(matching parent values, child), ...]) + SearchSpace.add
+  client-*@compact
+               clients.Trial.parameters of a study created from the compact StudySpec
+
 and compared with an expectation computed from the description alone: value
 equal to the stored value, python type as declared, name[i] grouped in index
 order, only active conditional parameters, ValueError-style refusal for unknown
@@ -31,6 +39,15 @@ RULE = ('typed conditional trees of depth 0..3 (1..4 top-level entries, each a l
         '{cfg-orig, cfg-rt, client-ram, client-sql, client-grpc} x {valid, +unknown parameter, '
         '+inactive parameter}; suggestions on flat spaces; flat spaces additionally as a '
         're-created study (read, delete, same owner/id re-created with re-declared types, read). '
+        'Conditional spaces additionally (a) through the multi-value declaration routes '
+        '{cfg-compact, cfg-factory, client-ram/sql/grpc@compact}: one conditional entry lists '
+        'every parent value of a child (compact StudySpec proto / ParameterConfig.factory('
+        'children=...)), valid trials with the parent at each matching value incl. a non-last '
+        'one, unknown / inactive negatives; (b) 40 % of the parents with >= 2 values are '
+        'switches: 2..3 child groups under disjoint parent values re-declare the same 1..2 child '
+        'names (leaf or indexed family, other kind / values / family length per branch), the '
+        'stored value is one of the declaration active for the trial and the expectation is '
+        'taken from that declaration. '
         ' distinct = hash(tree shape, reader, '
         'kind, #active, #indexed groups); non-trivial = at least one typed value presented.')
 ASSUMPTIONS = [
@@ -44,6 +61,13 @@ ASSUMPTIONS = [
     'a python bool stored for a BOOL *parent* that activates children is a separate class '
     '(own mechanism); python bools for leaf BOOL parameters are in the core class',
     'parameter names contain no parentheses and no nested indices',
+    'a name is re-declared only under disjoint values of ONE parent and only as a leaf / '
+    'indexed family (names stay unique within every subspace, never two active copies)',
+    'the compact StudySpec is derived from StudyConfig.to_proto() by merging conditional entries '
+    'with byte-identical child specs; only the standard parent_*_values fields are used',
+    'mechanism ids of anomalies on such names / routes carry the feature '
+    '(":name-redeclared-under-other-parent-value", "one-spec-lists-several-parent-values") only '
+    'after the plain readers presented the same trial correctly',
 ]
 REQUIRED_COUNTERS = ['values_typechecked:BOOLEAN', 'values_typechecked:INTEGER',
                      'values_typechecked:FLOAT', 'values_typechecked:DOUBLE',
@@ -54,7 +78,13 @@ REQUIRED_COUNTERS = ['values_typechecked:BOOLEAN', 'values_typechecked:INTEGER',
                      'reads:cfg-orig', 'reads:cfg-rt', 'reads:client-ram', 'reads:client-sql',
                      'reads:client-grpc', 'suggested_trials_read',
                      'recreated_study_reads_with_changed_declarations', 'pybool_leaf_values_read',
-                     'deep_trials_in_memory_checked']
+                     'deep_trials_in_memory_checked',
+                     'reads:cfg-compact', 'reads:cfg-factory',
+                     'multi_value_spec_trials_parent_at_non_last_value',
+                     'multi_value_spec_trials_read_through_clients',
+                     'inactive_rejections_checked:multi-value-spec',
+                     'redeclared_name_values_typechecked',
+                     'redeclared_name_later_branch_trials_through_proto']
 MIN_DISTINCT = {'quick': 600, 'thorough': 5000}
 
 
@@ -74,6 +104,7 @@ def grpc_stub():
 
 
 def _service(reader):
+  reader = reader.split('@')[0]
   if reader == 'client-grpc':
     return grpc_stub()
   return servicer('ram' if reader == 'client-ram' else 'sql')
@@ -126,6 +157,86 @@ def _env(tree):
   return _ENV
 
 
+def _compact_parameter_spec(ps):
+  """In place: conditional specs of `ps` that carry the same child declaration
+  (to_proto() writes one spec per parent value) are merged into ONE spec that
+  lists all their parent values - the compact form other writers of a StudySpec
+  use. Values are listed unsorted (latest first). Returns #multi-valued specs."""
+  n_multi = 0
+  conds = list(ps.conditional_parameter_specs)
+  merged = []
+  for c in conds:
+    n_multi += _compact_parameter_spec(c.parameter_spec)
+    kind = c.WhichOneof('parent_value_condition')
+    key = (kind, c.parameter_spec.SerializeToString(deterministic=True))
+    for k2, m in merged:
+      if k2 == key and kind:
+        have = getattr(m, kind).values
+        add = [v for v in getattr(c, kind).values if v not in have]
+        have[:] = add + list(have)
+        break
+    else:
+      m = type(c)()
+      m.CopyFrom(c)
+      merged.append((key, m))
+  del ps.conditional_parameter_specs[:]
+  for _k, m in merged:
+    kind = m.WhichOneof('parent_value_condition')
+    if kind and len(getattr(m, kind).values) > 1:
+      n_multi += 1
+    ps.conditional_parameter_specs.add().CopyFrom(m)
+  return n_multi
+
+
+def compact_spec(spec):
+  from vizier._src.service import study_pb2
+  out = study_pb2.StudySpec()
+  out.CopyFrom(spec)
+  n = sum(_compact_parameter_spec(ps) for ps in out.parameters)
+  return out, n
+
+
+def _factory_config(p):
+  """ParameterConfig of `p` with its subtree attached through
+  ParameterConfig.factory(children=[(parent values, child), ...])."""
+  from vizier import pyvizier as vz
+  scratch = vz.SearchSpace()
+  cond.add_param(scratch.root, dict(p, children=[]))
+  base = scratch.parameters[0]
+  groups = p.get('children', [])
+  if not groups:
+    return base
+  children = [(list(vals), _factory_config(kid)) for vals, kids in groups for kid in kids]
+  kw = {}
+  if base.type in (vz.ParameterType.INTEGER, vz.ParameterType.DOUBLE):
+    kw['bounds'] = base.bounds
+  else:
+    kw['feasible_values'] = list(base.feasible_values)
+  return vz.ParameterConfig.factory(
+      name=base.name, scale_type=base.scale_type, default_value=base.default_value,
+      external_type=base.external_type, children=children, **kw)
+
+
+class DefinitionRefused(Exception):
+  """A valid definition was refused on one of the alternative declaration routes."""
+
+  def __init__(self, route, cause):
+    super().__init__(f'{route}: {type(cause).__name__}: {cause}')
+    self.route, self.cause = route, cause
+
+
+def build_tree_factory(tree):
+  """The same space, children given as (matching parent values, child) pairs."""
+  from vizier import pyvizier as vz
+  space = vz.SearchSpace()
+  try:
+    for p in tree:
+      space.add(_factory_config(p))
+  except Exception as e:  # pylint: disable=broad-except
+    raise DefinitionRefused('ParameterConfig.factory(children=...)', e) from e
+  return space
+
+
 def _cfg(tree, which):
   from vizier.service import pyvizier as vz
   env = _env(tree)
@@ -133,14 +244,43 @@ def _cfg(tree, which):
     env['space'], env['cfg'] = _configs(tree)
   if which == 'rt' and 'rt' not in env:
     env['rt'] = vz.StudyConfig.from_proto(env['cfg'].to_proto())
+  if which in ('compact', 'compact-spec') and 'compact' not in env:
+    env['compact-spec'], env['compact-multi'] = compact_spec(env['cfg'].to_proto())
+    try:
+      env['compact'] = vz.StudyConfig.from_proto(env['compact-spec'])
+    except Exception as e:  # pylint: disable=broad-except
+      raise DefinitionRefused('StudyConfig.from_proto(compact StudySpec)', e) from e
+  if which == 'factory' and 'factory' not in env:
+    fc = vz.StudyConfig(search_space=build_tree_factory(tree), algorithm='RANDOM_SEARCH')
+    fc.metric_information.append(
+        vz.MetricInformation(name='m', goal=vz.ObjectiveMetricGoal.MAXIMIZE))
+    env['factory'] = fc
   return env['cfg' if which == 'orig' else which]
+
+
+_SPEC_SEQ = [0]
+
+
+def _study_from_spec(service, spec, tag):
+  from vizier._src.service import clients, resources, study_pb2, vizier_client
+  from vizier._src.service import vizier_service_pb2
+  _SPEC_SEQ[0] += 1
+  st = study_pb2.Study(display_name=f'{tag}-{_SPEC_SEQ[0]}', study_spec=spec)
+  st = service.CreateStudy(vizier_service_pb2.CreateStudyRequest(
+      parent=resources.OwnerResource('vvc').name, study=st))
+  return clients.Study(vizier_client.VizierClient(st.name, 'vv-client', service))
 
 
 def _study(tree, reader, ctx):
   env = _env(tree)
   _cfg(tree, 'orig')
   if reader not in env:
-    env[reader] = make_study(_service(reader), env['space'], f'c17-{ctx.seed}')
+    if reader.endswith('@compact'):
+      # the study is created from the compact StudySpec (another writer of the proto)
+      env[reader] = _study_from_spec(_service(reader), _cfg(tree, 'compact-spec'),
+                                     f'c17c-{ctx.seed}-{ctx.shard}')
+    else:
+      env[reader] = make_study(_service(reader), env['space'], f'c17-{ctx.seed}')
   return env[reader]
 
 
@@ -152,6 +292,10 @@ def _read(reader, tree, params, ctx):
       return 'ok', _cfg(tree, 'orig').trial_parameters(_proto(params))
     if reader == 'cfg-rt':
       return 'ok', _cfg(tree, 'rt').trial_parameters(_proto(params))
+    if reader == 'cfg-compact':
+      return 'ok', _cfg(tree, 'compact').trial_parameters(_proto(params))
+    if reader == 'cfg-factory':
+      return 'ok', _cfg(tree, 'factory').trial_parameters(_proto(params))
     study = _study(tree, reader, ctx)
     t = study.request(vz.TrialSuggestion(parameters=params))
     got = t.parameters
@@ -176,10 +320,46 @@ def exec_valid(ctx, reader, tree, stored):
   ctx.case(['valid', cond.tree_shape(tree), reader, len(stored), n_groups, max_d], bool(stored))
   kind, res = _read(reader, tree, stored, ctx)
   pyb = _pybool_parent_active(tree, stored)
-  through_proto = reader != 'cfg-orig'
+  through_proto = reader not in ('cfg-orig', 'cfg-factory')
+  multi_spec = reader in MULTI_VALUE_READERS
+  active = core.active_descs(tree, stored)
+  first_decl = cond.all_params(tree)
+  redecl = core.redeclared_names(tree)
+  # names of this trial that another parent value declares differently, and whether
+  # this trial sits in a branch other than the first declared one
+  redecl_here = sorted(n for n in stored if n in redecl)
+  later_branch = any(active[n] != first_decl[n] for n in redecl_here)
+  # active children hanging under a group of several parent values, parent not at the last
+  multi_grp = _multi_value_children(active, stored)
+  non_last = any(not cond.value_matches(active[n], stored[n], [_last_value(vals)])
+                 for n, vals in multi_grp)
   if kind == 'exc':
     if isinstance(res, AssertionError):
       ctx.violation(f'client-read-paths-disagree:{reader}', str(res), case)
+      return
+    if isinstance(res, DefinitionRefused):
+      ctx.violation(f'valid-conditional-definition-refused:{reader}:{type(res.cause).__name__}',
+                    f'{reader}: {res}'[:300], case)
+      return
+    # ---- which feature of the case does the refusal go with? ----------------------
+    # (decided by reading the same trial through the plain readers)
+    if (multi_spec and multi_grp
+        and _read('cfg-rt' if through_proto else 'cfg-orig', tree, stored, ctx)[0] == 'ok'):
+      ctx.violation(f'active-child-refused:one-spec-lists-several-parent-values:'
+                    + ('parent-at-non-last-value' if non_last else 'parent-at-last-value')
+                    + f':{reader}',
+                    f'{reader}: children declared once for the parent values '
+                    f'{[v for _n, v in multi_grp]} are active for this trial, but the trial is '
+                    f'refused ({type(res).__name__}: {str(res)[:120]}); the same space declared '
+                    f'with one entry per parent value presents it', case)
+      return
+    if redecl_here and through_proto and _read('cfg-orig', tree, stored, ctx)[0] == 'ok':
+      ctx.violation(f'valid-trial-refused:name-redeclared-under-other-parent-value:'
+                    + ('later-branch' if later_branch else 'first-branch') + f':{reader}',
+                    f'{reader}: {redecl_here} are declared differently under the parent '
+                    f'values of one parent; the trial of this branch is refused '
+                    f'({type(res).__name__}: {str(res)[:120]}) while the config that was never '
+                    f'serialized presents it', case)
       return
     # ---- classification of the two known mechanisms ---------------------------
     if pyb:
@@ -207,10 +387,18 @@ def exec_valid(ctx, reader, tree, stored):
   bad = core.compare(ctx, reader, res, tree, stored, case)
   if max_d >= 1:
     ctx.count('conditional_trials_checked')
-    params = cond.all_params(tree)
-    if any(len(vals) > 1 and cond.value_matches(params[n], stored[n], vals)
-           for n in stored for vals, _k in params[n].get('children', [])):
+    if multi_grp:
       ctx.count('conditional_trials_multi_parent_values')
+      if multi_spec and not bad:
+        ctx.count('multi_value_spec_trials_presented')
+        if non_last:
+          ctx.count('multi_value_spec_trials_parent_at_non_last_value')
+        if reader.endswith('@compact'):
+          ctx.count('multi_value_spec_trials_read_through_clients')
+  if redecl_here and not bad:
+    ctx.count('redeclared_name_trials_presented')
+    if later_branch and through_proto:
+      ctx.count('redeclared_name_later_branch_trials_through_proto')
   if max_d >= 2 and reader == 'cfg-orig' and not bad:
     ctx.count('deep_trials_in_memory_checked')
   if max_d >= 2 and through_proto and not bad:
@@ -228,9 +416,14 @@ def exec_invalid(ctx, reader, tree, stored, extra_name, extra_value, why):
   ctx.case(['invalid', cond.tree_shape(tree), reader, why, len(stored)], True)
   kind, res = _read(reader, tree, params, ctx)
   ctx.count(f'{why}_rejections_checked')
+  if reader in MULTI_VALUE_READERS:
+    ctx.count(f'{why}_rejections_checked:multi-value-spec')
   if kind == 'exc':
     if isinstance(res, AssertionError):
       ctx.violation(f'client-read-paths-disagree:{reader}', str(res), case)
+    elif isinstance(res, DefinitionRefused):
+      ctx.violation(f'valid-conditional-definition-refused:{reader}:{type(res.cause).__name__}',
+                    f'{reader}: {res}'[:300], case)
     elif not isinstance(res, ValueError):
       ctx.count(f'{why}_refused_with:{type(res).__name__}')
     return
@@ -390,6 +583,35 @@ def exec_recreate(ctx, reader, tree, stored, tree2, stored2):
 
 
 READERS = ['cfg-orig', 'cfg-rt', 'client-ram', 'client-sql', 'client-grpc']
+# readers whose space came from a declaration that lists several parent values at once
+MULTI_VALUE_READERS = ['cfg-compact', 'cfg-factory', 'client-ram@compact', 'client-sql@compact',
+                       'client-grpc@compact']
+
+
+def _last_value(vals):
+  return sorted(vals)[-1]
+
+
+def _multi_value_children(active, stored):
+  """[(parent name, parent values)] for every active child of this trial whose
+  declaration (whole subtree) is the same under several values of its parent -
+  one group of several values, or equal declarations in several groups: a
+  compact declaration lists all those values in one entry."""
+  out = []
+  for n in stored:
+    p = active[n]
+    groups = p.get('children', [])
+    for vals, kids in groups:
+      if not cond.value_matches(p, stored[n], vals):
+        continue
+      for kid in kids:
+        union = []
+        for vals2, kids2 in groups:
+          if any(k2 == kid for k2 in kids2):
+            union.extend(v for v in vals2 if v not in union)
+        if len(union) > 1:
+          out.append((n, union))
+  return out
 
 
 def run_case(ctx, i):
@@ -403,10 +625,20 @@ def run_case(ctx, i):
   readers = ['cfg-orig', 'cfg-rt', rng.choice(['client-ram', 'client-sql'])]
   if i % 8 == 0:
     readers.append('client-grpc')
+  conditional = cond.tree_depth(tree) >= 1
+  if conditional:
+    # the same space declared with several parent values per entry
+    readers += ['cfg-compact', 'cfg-factory']
+    if i % 2 == 0:
+      readers.append(rng.choice(['client-ram@compact', 'client-sql@compact']))
+    if i % 16 == 8:
+      readers.append('client-grpc@compact')
   for reader in readers:
     exec_valid(ctx, reader, tree, stored)
   # negatives -------------------------------------------------------------------
   neg_readers = ['cfg-orig', rng.choice(READERS[1:4])] + (['client-grpc'] if i % 16 == 0 else [])
+  if conditional:
+    neg_readers.append(rng.choice(MULTI_VALUE_READERS[:4]))
   unknown = rng.choice([('zz_unknown', 1), ('zz_unknown', 'a'), ('zz[0]', 0.5),
                         (next(iter(stored)) + '_', 1) if stored else ('zz', 1)])
   for reader in neg_readers:
